@@ -79,6 +79,21 @@ def exc_line(exc, prefix="nfc"):
     return line
 
 
+class quiet_stdout(object):
+    """stdout of repository code (print() in Type3Tag._format, llc) must not reach the
+    report: it could forge a VIOLATION line."""
+    _null = None
+
+    def __enter__(self):
+        if quiet_stdout._null is None:
+            quiet_stdout._null = open(os.devnull, "w")
+        self._saved = sys.stdout
+        sys.stdout = quiet_stdout._null
+
+    def __exit__(self, *a):
+        sys.stdout = self._saved
+
+
 class Sim(object):
     """Choice stream + event log + reach counters of one simulated run."""
 
@@ -187,7 +202,8 @@ def execute(check, params, seed=None, replay=None, keep_events=True):
     """Run one simulated run of `check`.  Returns (sim, violation-or-None)."""
     sim = Sim(seed=seed, replay=replay, keep_events=keep_events)
     try:
-        check.run_one(sim, params)
+        with quiet_stdout():
+            check.run_one(sim, params)
     except Violation as v:
         return sim, v
     return sim, None
